@@ -229,7 +229,7 @@ func Scalar(r *mon.Rng) *ScalarCase {
 			o, _ := model.Rat(off)
 			p := RatText(new(big.Rat).Sub(x, o))
 			excl := off != "0" && r.Chance(1, 2)
-			rules = append(rules, model.RNum("min", p))
+			rules = append(rules, model.RNum("min", respellParam(r, p)))
 			if excl || r.Chance(1, 4) {
 				rules = append(rules, model.RBool("exclusiveMinimum", excl))
 			}
@@ -245,7 +245,7 @@ func Scalar(r *mon.Rng) *ScalarCase {
 			o, _ := model.Rat(off)
 			p := RatText(new(big.Rat).Add(x, o))
 			excl := off != "0" && r.Chance(1, 2)
-			rules = append(rules, model.RNum("max", p))
+			rules = append(rules, model.RNum("max", respellParam(r, p)))
 			if excl || r.Chance(1, 4) {
 				rules = append(rules, model.RBool("exclusiveMaximum", excl))
 			}
@@ -453,4 +453,16 @@ func FalseRuleVariants(n *model.Node) []*model.Node {
 		}
 	}
 	return out
+}
+
+// respellParam sometimes writes a bound with trailing zeros (1.50, 2.0): the rule text must be
+// reproduced as written while its value stays the same. Exponents are not allowed in schemas.
+func respellParam(r *mon.Rng, p string) string {
+	if !r.Chance(1, 3) {
+		return p
+	}
+	if strings.Contains(p, ".") {
+		return p + mon.Pick(r, []string{"0", "00"})
+	}
+	return p + mon.Pick(r, []string{".0", ".00"})
 }
